@@ -24,6 +24,10 @@ claimed = {
          "Termination bound and consistency clauses decided for every header; delivery of exactly size bytes on truncated input is not decided."),
  "C16": ("other", "SSA term/dataflow rules on CheckDebsig (exact role lookup, ordered MultiReader of rewound members, results unchanged) + shared-selector and map-order rules", "3.C16",
          "The wrapper obligations that turn the OpenPGP library's guarantee into the property are decided; the library is trusted."),
+ "C19": ("other", AI + " of OrderDSCForBuild on exact source descriptions with a recording oracle for the topological sorter (every AddEdge/Sort outcome enumerated); struct-tag and map-order rules", "3.C19",
+         "Edges per build-dependency field (with C06 selection semantics interpreted, not mocked), edge direction, node-before-edge order, error propagation and result construction are decided; the sorter itself is trusted."),
+ "C20": ("other", AI + " of the six upload methods and internal.Copy with every filesystem call replaced by an effect-recording oracle forking into success and failure", "3.C20",
+         "Order of effects (control file last), failure propagation, destination paths, handle update, containment of listed names and cleanup after a failed copy are decided on every path of the oracle tree; real filesystem behaviour is not."),
  "C10": ("other", "type-level struct-tag tables against Debian field tables; SSA rules on the list decoder; " + AI + " of line parsers and accessors", "3.C10",
          "116 field instances and the decoder/accessor tables are decided exactly; equality with a document model for every document is not decided."),
 }
